@@ -51,7 +51,18 @@ func renameBack(c *Ctx) (map[string]bool, []string) {
 	for k := range ch2 {
 		changed[k] = true
 	}
-	return changed, append(notes, n2...)
+	notes = append(notes, n2...)
+	// phase 3: private methods that were turned into plain functions (remethod.go)
+	if len(ch2) > 0 {
+		if err := rebuildAll(c, false); err != nil {
+			return changed, append(notes, "re-typecheck after rename failed: "+err.Error())
+		}
+	}
+	ch3, n3 := remethodise(c)
+	for k := range ch3 {
+		changed[k] = true
+	}
+	return changed, append(notes, n3...)
 }
 
 func renamePhase(c *Ctx, typesOnly bool) (map[string]bool, []string) {
